@@ -124,6 +124,9 @@ class ImplWorld(ImplExt):
         import copy as _copy
         import pickle as _pickle
         keys = [k for k in ("dispatcher", "instance", "ops", "heap", "fheap", "unsched_observer", "trace") if hasattr(self, k)]
+        if "heapfirst" in ts:
+            # the checkpoint lists the observers before their dispatcher (a dict the caller filled in that order)
+            keys = [k for k in keys if k in ("heap", "fheap")] + [k for k in keys if k not in ("heap", "fheap")]
         state = {k: getattr(self, k) for k in keys}
         recorders = [o for o in state.get("heap", []) if isinstance(o, Recorder)]
         for o in recorders:
@@ -202,6 +205,19 @@ class ImplWorld(ImplExt):
         except Exception:  # pylint: disable=broad-except
             return "raise"
         return str(self._register(obs, kind, subscribed=False))
+
+    def cmd_obsn2(self, ts):
+        """constructed with subscribe=False and - if the constructor let it be - subscribed by hand at once"""
+        kind = ts[0]
+        try:
+            obs = KINDS[kind](self.dispatcher, subscribe=False)
+        except Exception:  # pylint: disable=broad-except
+            return "raise"
+        i = self._register(obs, kind, subscribed=False)
+        self.dispatcher.subscribe(obs)
+        self.sub_state[i] = True
+        self.sub_order.append(i)
+        return str(i)
 
     def cmd_cog(self, ts):
         kind = ts[0]
@@ -1499,9 +1515,12 @@ class ImplEnv(ImplViz):
         groups = self._split(ts)
         j1, j2, m1, m2, d1, d2, al, rc, k1, k2 = [int(t) for t in groups[0]]
         draws = [int(t) for t in groups[-1]]
+        # (the generator may carry an iteration limit - that is about iterating over it; an environment asks for instances one at a time,
+        #  as often as it is reset)
         g = GeneralInstanceGenerator(num_jobs=(j1, j2), num_machines=(m1, m2), duration_range=(d1, d2),
                                      allow_less_jobs_than_machines=bool(al), allow_recirculation=bool(rc),
-                                     machines_per_operation=(k1, k2), name_suffix="verif")
+                                     machines_per_operation=(k1, k2), name_suffix="verif",
+                                     iteration_limit=[None, 1, 2, 0][sum(draws[:7]) % 4])
         g.rng = ScriptedRng(draws)
         kwargs, builder = self._env_kwargs(groups[1], groups[2:-1], style=len(ts))
         self.menv_kwargs = kwargs
@@ -1512,6 +1531,33 @@ class ImplEnv(ImplViz):
             self.menv = None
             return "raise"
         return fmt_space(self.menv)
+
+    def _fork_env(self, attr):
+        """The episode goes on with a deep copy of the environment (a checkpoint / a search over continuations); the original is reset and
+        stepped once, so that whatever the copy still shares with it shows.  The model does nothing."""
+        import copy as _copy
+        old = getattr(self, attr)
+        if old is None:
+            return "ok"
+        try:
+            new = _copy.deepcopy(old)
+        except Exception as e:  # pylint: disable=broad-except
+            return f"copy-raised {type(e).__name__}"
+        setattr(self, attr, new)
+        try:
+            old.reset()
+            acts = self.legal_actions(old.single_job_shop_graph_env if hasattr(old, "single_job_shop_graph_env") else old)
+            if acts:
+                old.step(acts[-1])
+        except Exception:  # pylint: disable=broad-except
+            pass        # (a refusing generator, a known finding of the multi environment: the original's own business)
+        return "ok"
+
+    def cmd_efork(self, ts):
+        return self._fork_env("env")
+
+    def cmd_mfork(self, ts):
+        return self._fork_env("menv")
 
     def cmd_mreset(self, ts):
         try:
